@@ -408,6 +408,7 @@ type xworld struct {
 	t0     time.Time
 	vnow   int64
 	closed bool
+	ack    int64
 	shOf   map[uint64]*xsh
 	ixOf   map[uint64]*xix
 }
@@ -420,6 +421,7 @@ func newXWorld(root string, t *xtrace) (*xworld, error) {
 		return nil, err
 	}
 	w.eng = e.(*engine.EngineImpl)
+	w.ack = t.d0
 	w.rpi = &meta.RetentionPolicyInfo{Name: rpName, Duration: time.Duration(t.d0), ReplicaN: 1, ShardGroupDuration: time.Hour, IndexGroupDuration: time.Hour}
 	w.data = &meta.Data{Databases: map[string]*meta.DatabaseInfo{dbName: {Name: dbName, DefaultRetentionPolicy: rpName,
 		RetentionPolicies: map[string]*meta.RetentionPolicyInfo{rpName: w.rpi}}}}
@@ -456,6 +458,16 @@ func (w *xworld) close() {
 	if err := w.eng.Close(); err == nil && !w.closed {
 		_ = os.RemoveAll(w.dir)
 	}
+}
+
+// alter: the policy duration changes through the command path (cmd.go). ack = the duration of
+// the last ALTER that was acknowledged (what the user may rely on).
+func (w *xworld) alter(d int64) error {
+	err := applyAlterCmd(w.data, dbName, rpName, rpCmd{dur: i64(d)})
+	if err == nil {
+		w.ack = d
+	}
+	return err
 }
 
 func (w *xworld) pt() *engine.DBPTInfo { return w.eng.DBPartitions[dbName][0] }
@@ -610,7 +622,7 @@ func (m *xmeta) GetShardDurationInfo(index uint64) (*meta.ShardDurationResponse,
 	*m.refS = int64(m.w.rpi.Duration)
 	*m.calls = append(*m.calls, "RS1")
 	if m.op.a1 != nil {
-		m.w.rpi.Duration = time.Duration(*m.op.a1)
+		_ = m.w.alter(*m.op.a1)
 	}
 	return out, nil
 }
@@ -618,12 +630,12 @@ func (m *xmeta) GetShardDurationInfo(index uint64) (*meta.ShardDurationResponse,
 func (m *xmeta) GetIndexDurationInfo(index uint64) (*meta.IndexDurationResponse, error) {
 	if !m.op.okS && m.op.a1 != nil {
 		// the alteration lands between the two calls whether or not the first one was answered
-		m.w.rpi.Duration = time.Duration(*m.op.a1)
+		_ = m.w.alter(*m.op.a1)
 	}
 	if !m.op.okI {
 		*m.calls = append(*m.calls, "RI0")
 		if m.op.a2 != nil {
-			m.w.rpi.Duration = time.Duration(*m.op.a2)
+			_ = m.w.alter(*m.op.a2)
 		}
 		return nil, errInjected
 	}
@@ -642,7 +654,7 @@ func (m *xmeta) GetIndexDurationInfo(index uint64) (*meta.IndexDurationResponse,
 	*m.refI = int64(m.w.rpi.Duration)
 	*m.calls = append(*m.calls, "RI1")
 	if m.op.a2 != nil {
-		m.w.rpi.Duration = time.Duration(*m.op.a2)
+		_ = m.w.alter(*m.op.a2)
 	}
 	return out, nil
 }
@@ -924,8 +936,17 @@ func playX(root string, t *xtrace) (out []emitted, st map[string]int, err error)
 				w.tick(o.d)
 				ans = "ok"
 			case "alter":
-				w.rpi.Duration = time.Duration(o.d)
-				ans = "ok"
+				// ALTER RETENTION POLICY … DURATION d, as a command applied by the meta state machine
+				if err := w.alter(o.d); err != nil {
+					ans = "err"
+				} else {
+					ans = "ok"
+				}
+				if o.d == 0 && int64(w.rpi.Duration) != 0 {
+					viol = append(viol, [2]string{"alter-to-unlimited-not-applied", fmt.Sprintf("ALTER RETENTION POLICY … DURATION INF was answered %q but the catalogue still holds duration %d ;; history: %s", ans, int64(w.rpi.Duration), histText(t, i))})
+				} else if ans == "ok" && int64(w.rpi.Duration) != o.d {
+					viol = append(viol, [2]string{"alter-not-applied", fmt.Sprintf("ALTER RETENTION POLICY … DURATION %d was acknowledged but the catalogue holds %d ;; history: %s", o.d, int64(w.rpi.Duration), histText(t, i))})
+				}
 			case "load":
 				r, err := w.load(o.sid)
 				if err != nil {
@@ -976,6 +997,7 @@ func playX(root string, t *xtrace) (out []emitted, st map[string]int, err error)
 					shBefore[id] = true
 				}
 				xm.lmDone, xm.lmMade = false, false
+				ack0 := w.ack
 				svc.VerifHandle()
 				xm.loadMid() // a run that stopped after a failed refresh: the write arrives all the same
 				if offloading {
@@ -1007,6 +1029,23 @@ func playX(root string, t *xtrace) (out []emitted, st map[string]int, err error)
 				ixAfter := map[uint64]bool{}
 				for _, id := range w.indexIDs() {
 					ixAfter[id] = true
+				}
+				// ---- the durations meta hands out are the acknowledged policy (no alteration during this run)
+				if refreshed && o.a1 == nil && o.a2 == nil {
+					if refS != ack0 || refI != ack0 {
+						viol = append(viol, [2]string{"refresh-hands-out-stale-duration", fmt.Sprintf("the acknowledged policy duration is %d, this run's refresh handed out %d (shards) / %d (indexes) ;; history: %s", ack0, refS, refI, hist)})
+					}
+					for _, sid := range xe.repS {
+						if s := w.shOf[sid]; s != nil && xm.listedS[sid] && !expired(ack0, s.endRel) {
+							gone := shBefore[sid] && w.pt().Shard(sid) == nil
+							viol = append(viol, [2]string{"deleted-under-acknowledged-policy", fmt.Sprintf("shard %d (end %+d ns, clock %d) reported expired (deleted from the store: %v) although the acknowledged policy duration %d keeps it ;; history: %s", sid, s.endRel, w.vnow, gone, ack0, hist)})
+						}
+					}
+					for _, iid := range xe.repI {
+						if x := w.ixOf[iid]; x != nil && xm.listed[iid] && !expired(ack0, x.endRel) {
+							viol = append(viol, [2]string{"deleted-under-acknowledged-policy", fmt.Sprintf("index %d (end %+d ns, clock %d) reported expired (deleted from the store: %v) although the acknowledged policy duration %d keeps it ;; history: %s", iid, x.endRel, w.vnow, ixBefore[iid] && !ixAfter[iid], ack0, hist)})
+						}
+					}
 				}
 				// ---- shards: reported => expired under what the shard side of this run got
 				for _, sid := range xe.repS {
